@@ -15,7 +15,37 @@ import projlib, c04gen
 TY = {"string": "TString", "int": "TInt", "bool": "TBool", "time.Duration": "TDur"}
 TIMES = [0.0, 0.0, 0.0]
 BENIGN = re.compile(r"^(DEBUG: |MAGEFILE_\w+=|Running target:|\s*$)")
-FAIL_MODES = ["error", "error", "fatal:3", "fatal:2", "panic-error", "panic-value", "panic-fatal:5", "osexit:4", "fatal:1"]
+# failure SHAPES of a body: every non-nil result (whatever status it asks for), every panic, and the process
+# ending inside the body stop the run there; the status itself is C05's
+FAIL_MODES = ["error", "error", "fatal:0", "fatal:0", "fatal:1", "fatal:2", "fatal:3", "fatal:255", "fatal:256", "fatal:-1",
+              "custom:0", "custom:0", "custom:-3", "custom:7", "panic-error", "panic-value", "panic-fatal:0", "panic-fatal:5",
+              "panic-custom:0", "osexit:0", "osexit:4"]
+
+
+def probe_source():
+    """lib/projlib's probe package + two more failure shapes: an error of a custom type with an ExitStatus()
+    method, returned (custom:<c>) or panicked with (panic-custom:<c>)"""
+    src = projlib.PROBE_GO
+    anchor = '\t\tcase "osexit":'
+    if anchor not in src:
+        return None
+    src = src.replace(anchor, '\t\tcase "custom":\n\t\t\treturn &codeErr{code, msg}\n\t\tcase "panic-custom":\n\t\t\tpanic(&codeErr{code, msg})\n' + anchor, 1)
+    return src + """
+type codeErr struct {
+	code int
+	msg  string
+}
+
+func (e *codeErr) Error() string   { return e.msg }
+func (e *codeErr) ExitStatus() int { return e.code }
+"""
+
+
+def make_project(mage, files, name):
+    src = probe_source()
+    if src is None:
+        return mage.project(files, name=name)
+    return mage.project(dict(files, **{"probe/probe.go": src}), name=name, probe=False)
 
 
 # ------------------------------------------------------------------ generation
@@ -32,7 +62,7 @@ def gen_lines(rng, proj, inf, n):
         fail = {}
         if rng.random() < 0.3:
             for d in rng.sample(alld, min(len(alld), rng.choice([1, 1, 2]))):
-                fail[str(d)] = rng.choice(FAIL_MODES)
+                fail[str(d)] = rng.choice(FAIL_MODES if probe_source() else [m for m in FAIL_MODES if "custom" not in m])
         ed = proj.get("edit")
         if ed and words and rng.random() < 0.5:
             # mention the edited target first (or, after a rename, its old name)
@@ -111,12 +141,16 @@ def observe(r):
     return {"rc": r["rc"], "calls": [[c[0], [list(a) for a in c[1]]] for c in cl], "stderr": sc, "bad": bad, "listed": listed}
 
 
-def classify(o):
-    """observed end of the run in the model's vocabulary (None: not classifiable)"""
+def classify(o, failing=()):
+    """observed end of the run in the model's vocabulary (None: not classifiable).  A run whose last body
+    was told to fail and that printed no dispatcher diagnostic ended "failed" whatever the exit status
+    (mg.Fatal(0), ExitStatus() 0, os.Exit(0), 256: status 0) - what ran before and after is in the CALL trace."""
     if o["stderr"] in ("unknown-target", "missing-arg", "bad-arg"):
         if o["rc"] != 2:
             return None
         return ("exit2", {"unknown-target": "unknown", "missing-arg": "missing"}.get(o["stderr"]) or ("bad:%s" % o["bad"]))
+    if o["calls"] and o["calls"][-1][0] in failing and o["stderr"] in ("target-error", "none") and o["listed"] is None:
+        return "failed"
     if o["rc"] == 0:
         return "listed" if o["listed"] is not None else "done"
     if o["stderr"] in ("target-error", "none"):
@@ -180,7 +214,7 @@ def run_project(mage, ctx, proj, lines):
     history = bool(proj.get("prev_files"))
     if history:
         # first generation: built and run once through the cached route (hash mode), then the edit
-        d = mage.project(proj["prev_files"], name=proj["name"])
+        d = make_project(mage, proj["prev_files"], proj["name"])
         r0 = mage.run(d, ["-l"], env={"MAGEFILE_HASHFAST": "1"})
         if r0["rc"] != 0:
             return {"build_error": r0}
@@ -191,7 +225,7 @@ def run_project(mage, ctx, proj, lines):
                 with open(os.path.join(d, rel), "w") as f:
                     f.write(text)
     else:
-        d = mage.project(files, name=proj["name"])
+        d = make_project(mage, files, proj["name"])
     bindir = os.path.join(ctx.tmp, "static", proj["name"])
     neutral = os.path.join(bindir, "neutral", "magebin")
     os.makedirs(os.path.dirname(neutral), exist_ok=True)
@@ -383,7 +417,7 @@ def run(ctx):
             case = {"proj": proj, "line": ln}
             want_calls, want_end = oracle(proj, ln, conv)
             got_calls = [(int(c[0][1:]), [tuple(a) for a in c[1]]) for c in o1["calls"]]
-            got_end = classify(o1)
+            got_end = classify(o1, set("d%s" % k_ for k_ in ln["fail"]))
             clause = None
             if (o2 is not None and o1 != o2) or o1 != o3:
                 clause = "cached binary / mage (rebuilding) / compiled binary behave differently: %s | %s | %s" % (json.dumps(o1)[:300], json.dumps(o2)[:300], json.dumps(o3)[:300])
